@@ -324,13 +324,13 @@ func (d *DgramConn) Write(p []byte) (int, error) {
 type DnsWorld struct {
 	// ServerConns: the tunnel sessions the server accepted (its own connection objects)
 	ServerConns []net.Conn
-	W       *World
-	Comm    *memServerComm
-	Lis     *sdns.ServerDnsListener
-	Path    *DnsPath
-	Clients []*sdns.ClientDnsConnection
-	Conns   []*DgramConn
-	HsErr   string
+	W           *World
+	Comm        *memServerComm
+	Lis         *sdns.ServerDnsListener
+	Path        *DnsPath
+	Clients     []*sdns.ClientDnsConnection
+	Conns       []*DgramConn
+	HsErr       string
 }
 
 // dnsDomain is the tunnel domain of this world (Options.DnsDomain, default DnsDomain).
